@@ -40,11 +40,15 @@ def main():
     chk.evaluations += n
     if c:
         cex.append(c)
+    c, n = P.falsify_stdout_encoding(chk, R)
+    chk.evaluations += n
+    if c:
+        cex.append(c)
     c, n = P.falsify_character_names(chk, R)
     chk.evaluations += n
     if c:
         cex.append(c)
-    replays, stats, lines, outs = P.taint_stream(chk, R, (2500 if chk.thorough else 330) * mult, sites)
+    replays, stats, lines, outs = P.taint_stream(chk, R, (2700 if chk.thorough else 500) * mult, sites)
     chk.coverage['taint'] = stats
     chk.note_cases({('tag', t) for t in stats['tags_seen']})
     if driver_ok and lines:
